@@ -220,6 +220,18 @@ def run_fastpath(case, ctx: Ctx):
         Kd, gd, fast_d = lib(X1, X2, Gm, [])
     tag_d = "fast" if fast_d else "generic_ard"
     cmp(tag_d, Kd, gd, Kref, want_raw)
+    # ---- 1b. a backward pass computes gradients and nothing else: the upstream gradient it is handed (shared by autograd with every
+    # other consumer of the kernel matrix, here the sibling `p`, and possibly the caller's own tensor) is left untouched
+    with ctx.observing("shared_upstream"):
+        out_s = k(X1, X2)
+        dense_s = out_s if torch.is_tensor(out_s) else out_s.to_dense()
+        if dense_s.requires_grad and tuple(dense_s.shape) == tuple(Gm.shape):
+            Gc = Gm.clone().contiguous()
+            p_s = torch.zeros((), dtype=Gm.dtype, requires_grad=True)
+            (dense_s + p_s).backward(gradient=Gc)
+            k.zero_grad()
+            ctx.close("backward.upstream_gradient_unchanged", Gc, Gm, rtol=0, atol=0)
+            ctx.close("backward.sibling_gradient", p_s.grad, Gm.sum(), rtol=1e-12, atol=1e-12, scale=max(1.0, float(Gm.abs().sum())))
     # ---- 2. trace_mode(True): the library's generic path
     with ctx.observing("trace_call"):
         Kt, gt, fast_t = lib(X1, X2, Gm, [], trace=True)
@@ -341,8 +353,12 @@ def run_lncdf(case, ctx: Ctx):
     zd = z_in.detach()
     with ctx.observing("log_normal_cdf"):
         val = log_normal_cdf(z_in)
+        g_before = g.clone()
         (got_leaf,) = torch.autograd.grad(val, leaf, grad_outputs=g)
         val = val.detach()
+    ctx.close("backward.upstream_gradient_unchanged", g, g_before, rtol=0, atol=0)
+    with ctx.observing("log_normal_cdf.post"):
+        pass
     if not ctx.check("value.shape", tuple(val.shape) == tuple(zd.shape), f"{tuple(val.shape)} vs {tuple(zd.shape)}", kind="shape"):
         return
     z = zd.numpy()
